@@ -107,7 +107,10 @@ func (ev *Evidence) finish(wall float64, violations int, known, inconclusive []s
 	}
 	var repoFuncs, libFuncs []string
 	for f := range ev.funcs {
-		if len(f) > 0 && (contains(f, "streamingfast/substreams") && !contains(f, "zz_verifsym")) {
+		if contains(f, ".Verif") || contains(f, "zz_verifsym") || isHarnessHelper(f) {
+			continue
+		}
+		if len(f) > 0 && contains(f, "streamingfast/substreams") {
 			repoFuncs = append(repoFuncs, f)
 		} else {
 			libFuncs = append(libFuncs, f)
@@ -199,4 +202,33 @@ func selftest() int {
 	}
 	fmt.Println("selftest ok")
 	return 0
+}
+
+// isHarnessHelper recognises helper functions defined in harness files by
+// their naming convention (v*, c<NN>*: see /verif/harness).
+func isHarnessHelper(f string) bool {
+	i := len(f) - 1
+	for i >= 0 && f[i] != '.' && f[i] != ')' {
+		i--
+	}
+	name := f[i+1:]
+	if j := indexByte(name, '$'); j >= 0 {
+		name = name[:j]
+	}
+	if len(name) >= 2 && name[0] == 'v' && name[1] >= 'A' && name[1] <= 'Z' {
+		return true
+	}
+	if len(name) >= 4 && name[0] == 'c' && name[1] >= '0' && name[1] <= '9' && name[2] >= '0' && name[2] <= '9' {
+		return true
+	}
+	return false
+}
+
+func indexByte(s string, c byte) int {
+	for i := 0; i < len(s); i++ {
+		if s[i] == c {
+			return i
+		}
+	}
+	return -1
 }
